@@ -46,9 +46,14 @@ def c12_names(tier):
     cr = _default(f, "aspire:Aspire.resume_from_file", "config_path")
     out.append(ob(f"io:C12:C13:configuration is saved and reloaded under the same group name ({cw})", cw is not None and cw == cr, "aspire:Aspire.save_config", f"{cw} {cr}"))
     # the in-file membership tests of sample_posterior / fit use the same literal names
-    src = ast.unparse(f.get("aspire:Aspire.sample_posterior").node) + ast.unparse(f.get("aspire:Aspire.fit").node)
+    tested = set()
+    for q in ("aspire:Aspire.sample_posterior", "aspire:Aspire.fit"):
+        for n in ast.walk(f.get(q).node):
+            # `"name" in <file>` / `"name" not in <file>`, whatever the file variable is called
+            if isinstance(n, ast.Compare) and isinstance(n.left, ast.Constant) and isinstance(n.left.value, str) and any(isinstance(o, (ast.In, ast.NotIn)) for o in n.ops):
+                tested.add(n.left.value)
     out.append(ob("io:C12:C14:sample_posterior/fit test membership of the same literal group names",
-                  (f"'{fw}' in h5_file" in src or f'"{fw}" in h5_file' in src) and (f"'{cw}' in h5_file" in src or f'"{cw}" in h5_file' in src), "aspire:Aspire.sample_posterior"))
+                  fw in tested and cw in tested, "aspire:Aspire.sample_posterior", f"tested={sorted(tested)}"))
     return out
 
 
@@ -123,12 +128,29 @@ def c20_entropy(tier):
             p = parents.get(node)
             if isinstance(p, ast.BoolOp) and isinstance(p.op, ast.Or) and p.values[-1] is node and len(p.values) >= 2:
                 guarded = True                                  # `user_value or <ambient>`
+            def none_side(test):
+                """-> 'body' if the test holds when the tested value is None / falsy, 'orelse' if it holds when it is supplied, None otherwise"""
+                if isinstance(test, ast.Compare) and len(test.ops) == 1 and isinstance(test.comparators[0], ast.Constant) and test.comparators[0].value is None:
+                    if isinstance(test.ops[0], (ast.Is, ast.Eq)):
+                        return "body"
+                    if isinstance(test.ops[0], (ast.IsNot, ast.NotEq)):
+                        return "orelse"
+                if isinstance(test, ast.UnaryOp) and isinstance(test.op, ast.Not) and isinstance(test.operand, (ast.Name, ast.Attribute)):
+                    return "body"
+                if isinstance(test, (ast.Name, ast.Attribute)):
+                    return "orelse"
+                return None
             cur = node
             while cur in parents:
                 par = parents[cur]
-                if isinstance(par, ast.If) and cur in par.body and isinstance(par.test, ast.Compare) and isinstance(par.test.ops[0], ast.Is) and \
-                        isinstance(par.test.comparators[0], ast.Constant) and par.test.comparators[0].value is None:
-                    guarded = True                              # inside `if user_value is None:`
+                if isinstance(par, (ast.If, ast.IfExp)):
+                    side = none_side(par.test)
+                    body = par.body if isinstance(par.body, list) else [par.body]
+                    orelse = par.orelse if isinstance(par.orelse, list) else [par.orelse]
+                    if side == "body" and any(cur is b for b in body):
+                        guarded = True                          # inside `if user_value is None:` / `if not user_value:` / `<ambient> if user_value is None else ...`
+                    if side == "orelse" and any(cur is b for b in orelse):
+                        guarded = True                          # else-branch of `if user_value is not None:` / `if user_value:`
                 cur = par
             ok = guarded
             why = "guarded: reached only when the user supplied none"
@@ -170,28 +192,62 @@ def c13_bindings(tier):
             keys = [k.value for k in n.keys if isinstance(k, ast.Constant)]
             break
     for n in ast.walk(cfg_fn.node):
-        if isinstance(n, ast.Subscript) and isinstance(n.value, ast.Name) and n.value.id == "config" and isinstance(n.slice, ast.Constant) and isinstance(n.ctx, ast.Store):
+        if isinstance(n, ast.Subscript) and isinstance(n.value, ast.Name) and isinstance(n.slice, ast.Constant) and isinstance(n.ctx, ast.Store):
             keys.append(n.slice.value)
     init = f.get("aspire:Aspire.__init__")
     pos, defaults, vararg, kwonly, kwarg = signature(init.node)
     params = set(pos[1:] + kwonly)
     build = f.get("aspire:Aspire._build_aspire_from_file")
-    popped = set()
+    # the local that holds the loaded configuration (whatever it is called): the target of `<x> = load_from_h5_file(...)`
+    cfg_names = set()
     for n in ast.walk(build.node):
-        if isinstance(n, ast.Call) and isinstance(n.func, ast.Attribute) and n.func.attr == "pop" and isinstance(n.func.value, ast.Name) and n.func.value.id == "config_dict" and n.args and isinstance(n.args[0], ast.Constant):
+        if isinstance(n, ast.Assign) and isinstance(n.value, ast.Call) and ast.unparse(n.value.func).endswith("load_from_h5_file"):
+            cfg_names |= {t.id for t in n.targets if isinstance(t, ast.Name)}
+    popped = set()
+    pop_target = {}          # key -> local name bound to the popped value
+    for n in ast.walk(build.node):
+        if isinstance(n, ast.Call) and isinstance(n.func, ast.Attribute) and n.func.attr == "pop" and isinstance(n.func.value, ast.Name) \
+                and (n.func.value.id in cfg_names or not cfg_names) and n.args and isinstance(n.args[0], ast.Constant):
             popped.add(n.args[0].value)
+    for n in ast.walk(build.node):
+        if isinstance(n, ast.Assign) and len(n.targets) == 1 and isinstance(n.targets[0], ast.Name):
+            for c in ast.walk(n.value):
+                if isinstance(c, ast.Call) and isinstance(c.func, ast.Attribute) and c.func.attr == "pop" and c.args and isinstance(c.args[0], ast.Constant):
+                    pop_target[c.args[0].value] = n.targets[0].id
     for k in keys:
         ok = k in params or k in popped
         out.append(ob(f"config:C13:saved configuration key '{k}' binds to a constructor parameter of Aspire (or is removed before the call)", ok, "aspire:Aspire._build_aspire_from_file"))
     for need in ("prior_bounds", "periodic_parameters", "flow_kwargs", "xp", "dtype", "bounded_to_unbounded", "bounded_transform", "flow_backend", "flow_matching", "eps", "parameters", "dims"):
         out.append(ob(f"config:C13:setting '{need}' is part of the saved configuration", need in keys, "aspire:Aspire.config_dict"))
     # flow options go back to the constructor as keywords (not nested)
-    src = ast.unparse(build.node)
-    out.append(ob("config:C13:recorded flow options are unpacked into the constructor call (**flow_kwargs)", "**flow_kwargs" in src and "flow_kwargs" in popped, "aspire:Aspire._build_aspire_from_file"))
+    fk = pop_target.get("flow_kwargs")
+    unpacked = False
+    for n in ast.walk(build.node):
+        if isinstance(n, ast.Call) and ast.unparse(n.func) in ("Aspire", "cls") and any(k.arg is None and isinstance(k.value, ast.Name) and k.value.id == fk for k in n.keywords):
+            unpacked = True
+    out.append(ob("config:C13:recorded flow options are unpacked into the constructor call (**flow_kwargs)", unpacked and "flow_kwargs" in popped, "aspire:Aspire._build_aspire_from_file"))
     # flows: recorded **kwargs entry is unpacked by both loaders
     for q in ("flows.torch.flows:BaseTorchFlow.load", "flows.jax.flows:FlowJax.load"):
-        s2 = ast.unparse(f.get(q).node)
-        out.append(ob(f"config:C13:{q.split(':')[1]} unpacks the recorded constructor **kwargs", "config.pop('kwargs'" in s2 and "config.update(kwargs)" in s2, q))
+        node = f.get(q).node
+        kw_local = None
+        for n in ast.walk(node):
+            if isinstance(n, ast.Assign) and len(n.targets) == 1 and isinstance(n.targets[0], ast.Name):
+                for c in ast.walk(n.value):
+                    if isinstance(c, ast.Call) and isinstance(c.func, ast.Attribute) and c.func.attr == "pop" and c.args and isinstance(c.args[0], ast.Constant) and c.args[0].value == "kwargs":
+                        kw_local = n.targets[0].id
+        merged = False
+        for n in ast.walk(node):
+            if kw_local is None:
+                break
+            if isinstance(n, ast.Call) and isinstance(n.func, ast.Attribute) and n.func.attr == "update" and any(isinstance(a, ast.Name) and a.id == kw_local for a in n.args):
+                merged = True
+            if isinstance(n, ast.Call) and any(k.arg is None and isinstance(k.value, ast.Name) and k.value.id == kw_local for k in n.keywords):
+                merged = True
+            if isinstance(n, ast.Dict) and any(k is None and isinstance(v, ast.Name) and v.id == kw_local for k, v in zip(n.keys, n.values)):
+                merged = True
+            if isinstance(n, (ast.BinOp, ast.AugAssign)) and isinstance(n.op, ast.BitOr) and any(isinstance(x, ast.Name) and x.id == kw_local for x in ast.walk(n)):
+                merged = True
+        out.append(ob(f"config:C13:{q.split(':')[1]} unpacks the recorded constructor **kwargs", kw_local is not None and merged, q))
     # transforms: cls(**config) - every config_dict key of every transform class is a constructor parameter of that class
     for cname in ("IdentityTransform", "CompositeTransform", "FlowTransform", "PeriodicTransform", "ProbitTransform", "LogitTransform", "AffineTransform"):
         keys_t = set()
